@@ -167,6 +167,11 @@ def big_functions(quick):
     defs = " ".join("(def v%d (+ a %d))" % (i, i) for i in range(n))
     uses = " ".join("v%d" % i for i in range(n))
     out.append(("(fn manyslots [a] %s (+ %s))" % (defs, uses), ["[1]"]))
+    # captured slots beyond the first 32 (second word of the closure bitset), in a nested definition
+    defs = " ".join("(def w%d (+ a %d))" % (i, i) for i in range(40))
+    out.append(("(fn hicap [a] (def mk (fn mk [] %s (var z a) (fn g [] (++ z) (+ z w39 w0)))) (def g (mk)) [(g) (g)])" % defs,
+                ["[1]", "[0.5]"]))
+    out.append(("(fn hicap2 [a] %s (var z a) (def g (fn g [] (++ z) (+ z w39 w0))) (def h (fn h [] [(g) (g)])) (h))" % defs, ["[1]"]))
     # deep nesting of definitions
     src = "(+ a0 a1 a2 a3 a4 a5)"
     for i in range(5, -1, -1):
